@@ -23,6 +23,8 @@ MOLS = {
     "LiHgc": dict(atom="Li 0 0 -0.35; H 0 0 1.25", basis={
         "Li": [[0, [16.1, 0.15, -0.03], [2.9, 0.53, -0.12], [0.8, 0.44, 0.1], [0.06, 0.0, 1.0]], [1, [0.16, 1.0]]],
         "H": [[0, [3.4, 0.15, 0.0], [0.62, 0.53, 0.2], [0.17, 0.44, 1.0]]]}, spin=0),
+    # an element that re-occurs after a different one (atom order H, O, H): per-element tables are indexed by atom
+    "HOH": dict(atom="H 0 0.76 -0.48; O 0 0 0.1; H 0 -0.76 -0.48", basis="sto-3g", spin=0),
     "H2": dict(atom="H 0 0 -0.37; H 0 0 0.37", basis={"H": [[0, [1.2, 1.0]], [0, [0.3, 1.0]], [1, [0.8, 1.0]]]}, spin=0),
 }
 
